@@ -20,6 +20,20 @@
 // family: ns_u16 ns_i16 ns_u32 ns_i32 ns_u64 ns_i64 (integral hash -> cds::algo::number_splitter),
 //         sb1 sb2 sb4 sb8 (N-byte struct -> cds::algo::split_bitstring), bs1 bs2 bs4 bs8 (N-byte struct with
 //         traits::hash_splitter = cds::algo::byte_splitter).
+// Lines named after GENERATED functions (tools/cxx2v units feldman_make / feldman_ctor; the model side evaluates the
+// extracted Gen_feldman_make / Gen_feldman_ctor through the dispatch of tools/cxx2v/gen_ocaml_dispatch.py):
+//   feldman_make.metrics_make <head> <array> <size>   metrics::make -> the four members in declaration order
+//                                                      <head_node_size> <head_node_size_log> <array_node_size> <array_node_size_log>
+//   feldman_ctor.<fam>_init <hash>                    the splitter constructor splitter( hash )
+//   feldman_ctor.<fam>_init_at <hash> <offset>        the splitter constructor splitter( hash, offset )
+//                                                      -> the data members of the constructed splitter in declaration order
+//                                                         (number_ shift_ | cur_ offset_ first_ last_ | cur_ first_ last_),
+//                                                         pointers as byte offsets from &hash
+//      fam: ns_i16 ns_u16 ns_i32 ns_u32 ns_i64 ns_u64, sb1..sb8 (split_bitstring<bytes<N>,N,unsigned>), bs1..bs8 (byte_splitter)
+//   split_ctor.<fam>_init[_at] ...                    the same for the instantiations of C25 (unit split_ctor of
+//                                                      tools/cxx2v/units_C25_init.json; checks/C25_init.py): fam = ns_i16 ...
+//                                                      ns_u64 ns_i64ll ns_u64ll, sb_u32_<N> sb_u64_<N> bs_u32_<N> bs_u64_<N>, N = 1 2 4 6 8
+//   The members are private: this file is compiled with -fno-access-control (checks/C28.py).
 // Every case runs under alarm( 20 ) and the process under a 3 GB address-space limit: a hang or runaway allocation of the
 // code under test ends the process and leaves the case as the last, unfinished output line.
 // Single-threaded, hook off.  "rej" = hash_splitter::is_correct fails for a width (the constructor's assertion;
@@ -223,6 +237,110 @@ static std::string do_set( size_t head, size_t array, std::vector<H> const& hs )
     return out;
 }
 
+// ---------------------------------------------------------------------------------------------- generated constructors
+template <typename T>
+static std::string show_state( cds::algo::number_splitter<T> const& s, void const * )
+{
+    std::string o; put( o, s.number_ ); o += " "; put_u( o, s.shift_ ); return o;
+}
+template <typename B, size_t N, typename U>
+static std::string show_state( cds::algo::split_bitstring<B, N, U> const& s, void const * base )
+{
+    uint8_t const * b = static_cast<uint8_t const *>( base );
+    std::string o; put_s( o, s.cur_ - b ); o += " "; put_u( o, s.offset_ ); o += " "; put_s( o, s.first_ - b ); o += " "; put_s( o, s.last_ - b );
+    return o;
+}
+template <typename B, size_t N, typename U>
+static std::string show_state( cds::algo::byte_splitter<B, N, U> const& s, void const * base )
+{
+    uint8_t const * b = static_cast<uint8_t const *>( base );
+    std::string o; put_s( o, s.cur_ - b ); o += " "; put_s( o, s.first_ - b ); o += " "; put_s( o, s.last_ - b );
+    return o;
+}
+
+template <typename Splitter, typename H>
+static std::string do_ctor( bool at, std::vector<std::string> const& tok )
+{
+    if ( tok.size() != ( at ? 3u : 2u )) return "BADLINE";
+    H h;
+    if ( !parse_hash( tok[1], h )) return "BADHASH";
+    if ( !at ) { Splitter s( h ); return show_state( s, &h ); }
+    unsigned long long off; bool neg;
+    if ( !parse_int( tok[2], off, neg ) || neg ) return "BADLINE";
+    Splitter s( h, static_cast<size_t>( off ));
+    return show_state( s, &h );
+}
+
+template <size_t N, typename U = unsigned>
+static std::string do_ctor_bytes( char kind, bool at, std::vector<std::string> const& tok )
+{
+    if ( kind == 's' ) return do_ctor< cds::algo::split_bitstring< bytes<N>, N, U >, bytes<N> >( at, tok );
+    return do_ctor< cds::algo::byte_splitter< bytes<N>, N, U >, bytes<N> >( at, tok );
+}
+
+// unit split_ctor (C25, tools/cxx2v/units_C25_init.json): families ns_<type> (8 integer types) and
+// sb_u32_<N> sb_u64_<N> bs_u32_<N> bs_u64_<N> (UInt = unsigned / unsigned long; N = 1, 2, 4, 6, 8 bytes)
+template <typename U>
+static std::string do_ctor_sized( char kind, char size, bool at, std::vector<std::string> const& tok )
+{
+    switch ( size ) {
+    case '1': return do_ctor_bytes<1, U>( kind, at, tok );
+    case '2': return do_ctor_bytes<2, U>( kind, at, tok );
+    case '4': return do_ctor_bytes<4, U>( kind, at, tok );
+    case '6': return do_ctor_bytes<6, U>( kind, at, tok );
+    case '8': return do_ctor_bytes<8, U>( kind, at, tok );
+    }
+    return "BADFAMILY";
+}
+
+static std::string run_generated( std::string const& unit, std::string const& fn, std::vector<std::string> const& tok )
+{
+    if ( unit == "feldman_make" ) {
+        if ( fn != "metrics_make" ) return "BADFUNCTION";
+        unsigned long long h, a, s; bool n1, n2, n3;
+        if ( tok.size() != 4 || !parse_int( tok[1], h, n1 ) || !parse_int( tok[2], a, n2 ) || !parse_int( tok[3], s, n3 ) || n1 || n2 || n3 ) return "BADLINE";
+        metrics_t m = metrics_t::make( (size_t) h, (size_t) a, (size_t) s );
+        std::string o; put_u( o, m.head_node_size ); o += " "; put_u( o, m.head_node_size_log ); o += " ";
+        put_u( o, m.array_node_size ); o += " "; put_u( o, m.array_node_size_log );
+        return o;
+    }
+    if ( unit != "feldman_ctor" && unit != "split_ctor" ) return "BADUNIT";
+    bool at;
+    std::string fam;
+    if ( fn.size() > 8 && fn.compare( fn.size() - 8, 8, "_init_at" ) == 0 ) { at = true; fam = fn.substr( 0, fn.size() - 8 ); }
+    else if ( fn.size() > 5 && fn.compare( fn.size() - 5, 5, "_init" ) == 0 ) { at = false; fam = fn.substr( 0, fn.size() - 5 ); }
+    else return "BADFUNCTION";
+    if ( fam == "ns_i16" ) return do_ctor< cds::algo::number_splitter<short>, short >( at, tok );
+    if ( fam == "ns_u16" ) return do_ctor< cds::algo::number_splitter<unsigned short>, unsigned short >( at, tok );
+    if ( fam == "ns_i32" ) return do_ctor< cds::algo::number_splitter<int>, int >( at, tok );
+    if ( fam == "ns_u32" ) return do_ctor< cds::algo::number_splitter<unsigned int>, unsigned int >( at, tok );
+    if ( fam == "ns_i64" ) return do_ctor< cds::algo::number_splitter<long>, long >( at, tok );
+    if ( fam == "ns_u64" ) return do_ctor< cds::algo::number_splitter<unsigned long>, unsigned long >( at, tok );
+    if ( unit == "split_ctor" ) {
+        if ( fam == "ns_i64ll" ) return do_ctor< cds::algo::number_splitter<long long>, long long >( at, tok );
+        if ( fam == "ns_u64ll" ) return do_ctor< cds::algo::number_splitter<unsigned long long>, unsigned long long >( at, tok );
+        // sb_u32_4, bs_u64_8, ...
+        if ( fam.size() == 8 && ( fam.compare( 0, 3, "sb_" ) == 0 || fam.compare( 0, 3, "bs_" ) == 0 ) && fam[6] == '_' ) {
+            if ( fam.compare( 3, 3, "u32" ) == 0 ) return do_ctor_sized<unsigned>( fam[0], fam[7], at, tok );
+            if ( fam.compare( 3, 3, "u64" ) == 0 ) return do_ctor_sized<unsigned long>( fam[0], fam[7], at, tok );
+        }
+        return "BADFAMILY";
+    }
+    if ( fam.size() == 3 && ( fam[0] == 's' || fam[0] == 'b' ) && fam[1] == ( fam[0] == 's' ? 'b' : 's' )) {
+        switch ( fam[2] ) {
+        case '1': return do_ctor_bytes<1>( fam[0], at, tok );
+        case '2': return do_ctor_bytes<2>( fam[0], at, tok );
+        case '3': return do_ctor_bytes<3>( fam[0], at, tok );
+        case '4': return do_ctor_bytes<4>( fam[0], at, tok );
+        case '5': return do_ctor_bytes<5>( fam[0], at, tok );
+        case '6': return do_ctor_bytes<6>( fam[0], at, tok );
+        case '7': return do_ctor_bytes<7>( fam[0], at, tok );
+        case '8': return do_ctor_bytes<8>( fam[0], at, tok );
+        }
+    }
+    return "BADFAMILY";
+}
+
 template <typename H, typename Traits>
 static std::string run_family( std::string const& kind, std::vector<std::string> const& tok )
 {
@@ -248,6 +366,7 @@ static std::string run_line( std::vector<std::string> const& tok )
     size_t dot = tok[0].find( '.' );
     if ( dot == std::string::npos ) return "BADLINE";
     std::string kind = tok[0].substr( 0, dot ), fam = tok[0].substr( dot + 1 );
+    if ( kind == "feldman_make" || kind == "feldman_ctor" || kind == "split_ctor" ) return run_generated( kind, fam, tok );
     if ( fam == "ns_u16" ) return run_family< unsigned short, traits_default<unsigned short> >( kind, tok );
     if ( fam == "ns_i16" ) return run_family< short, traits_default<short> >( kind, tok );
     if ( fam == "ns_u32" ) return run_family< unsigned int, traits_default<unsigned int> >( kind, tok );
